@@ -14,6 +14,7 @@ From GW Require Import Base.Res Base.GoStr Base.Json Gql.Syntax Gql.Spec Gw.Poin
      Gw.Locate Gw.Plan Proofs.CodecProofs Proofs.PointsProofs Proofs.FindProofs Proofs.PlanProofs Proofs.PlanCount Proofs.StitchSound Proofs.JoinSound Proofs.GroupSound Proofs.StepJoin Proofs.StepPoints
      Proofs.StepScrub Proofs.DeepPoints Proofs.ExactJoin Proofs.FedCanonical Proofs.PlanCanonical Proofs.FedTheorem
      Proofs.DeepScrub Proofs.FlattenPath Proofs.DeepFlatten Proofs.SingleService Proofs.FedTheoremObj Proofs.FedTheorem2 Proofs.FedTheoremCor
+     Proofs.FedCanonicalMulti Proofs.PlanCanonicalMulti Proofs.FedTheoremMulti
      Gw.Locate Gw.Plan Gw.Scrub Gw.Fed.
 Import ListNotations.
 Open Scope string_scope.
@@ -415,3 +416,34 @@ Theorem C01_gateway_answers_the_canonical_join_as_routed :
   Ok (exec (S (S (S n))) w [] vars None rootT [Field ka kn args [] (l1 ++ l2)]).
 Proof. exact gateway_answers_canonical_join_routed. Qed.
 Print Assumptions C01_gateway_answers_the_canonical_join_as_routed.
+
+(* Any number of services below the root field.  The selection tree l1 stays with the root
+   field's service A; the groups of scalar fields d_1 ... d_N (N >= 1) go to N other, pairwise
+   different services, one dependent step each, all hanging at [alias].  The planner returns that
+   plan, every step's points are found in the root step's answer, the follow-up fetches are
+   stitched into the same elements one step after the other, the scrub paths collapse to the one
+   path, and the whole-path model returns exactly the reference answer. *)
+Theorem C01_gateway_answers_the_join_over_many_services :
+  forall prios urls ft sh w vars, atomic_world w vars ->
+  forall rootT T t ka kn args l1 deps nn locA os client target n,
+  ka <> "" -> clean_key ka -> locA <> "" ->
+  choose prios urls rootT kn "" = Ok locA ->
+  assoc (url_key rootT kn) ft = Some T ->
+  Forall (at1 prios urls ft locA n T) l1 ->
+  Forall (dep_ok prios urls T locA) deps -> deps <> [] -> NoDup (locA :: map fst deps) ->
+  shape_of (rootT ++ "." ++ kn) sh = Some (t, (true, nn)) ->
+  good ((l1 ++ [id_sel]) ++ all_of deps) ->
+  Forall (fun d => no_id_var (snd d)) deps ->
+  descend [ka] client = Ok target -> natural_id target = false ->
+  resolve w vars None rootT (to_c (Field ka kn args [] (l1 ++ [id_sel]))) = FList (map (fun o => FRef (b_id o)) os) ->
+  Forall (fun o => find_obj (b_id o) (w_objs w) = Some o) os ->
+  (Z.of_nat (length os) <= int64_max)%Z ->
+  Forall (fun o => type_matches w T (b_type o) = true) os ->
+  Forall (fun d => Forall (fun o => flat_at w vars o (snd d)) os) deps ->
+  gateway_answer (S (S (S n))) prios urls ft sh w vars rootT [Field ka kn args [] (l1 ++ all_of deps)] client =
+  Ok (exec (S (S (S n))) w [] vars None rootT [Field ka kn args [] (l1 ++ all_of deps)]).
+Proof.
+  intros prios urls ft sh w vars Hw rootT T t ka kn args l1 deps nn locA os client target n.
+  exact (gateway_answers_multi_service_join prios urls ft sh w vars Hw rootT T t ka kn args l1 deps nn locA os client target n).
+Qed.
+Print Assumptions C01_gateway_answers_the_join_over_many_services.
